@@ -138,41 +138,59 @@ def fsmx_ref_in(w: str) -> bool:
 
 
 def r4_masking(ctx, rep):
+    """Structure of the per-statement prologue of the dispatch loop, by role: the masking loop is the `while` that appends to
+    self.strings; the case-folded copy is the local assigned from <statement>.lower()."""
     py, cs = ctx.py, ctx.cascade
-    kinds = []
-    mask_i = low_i = chain_i = None
-    for i, s in enumerate(cs.pre):
-        t = ast.unparse(s)
-        if isinstance(s, ast.While) and "QUOTES_RE.search(line[search_from:])" in t:
-            mask_i = i
-        if isinstance(s, ast.Assign) and t.startswith("line_lower = line.lower()"):
-            low_i = i
-        if isinstance(s, ast.If) and "self.settings.lower" in ast.unparse(s.test):
-            setl_i = i
+    LV, LO = cs.line_var, cs.lower_var
+    def appends_strings(n):
+        return isinstance(n, ast.Call) and isinstance(n.func, ast.Attribute) and n.func.attr == "append" and \
+            ast.unparse(n.func.value) == "self.strings"
+    mask_i = next((i for i, st in enumerate(cs.pre) if isinstance(st, ast.While) and any(appends_strings(n) for n in ast.walk(st))), None)
+    low_i = next((i for i, st in enumerate(cs.pre) if isinstance(st, ast.Assign) and any(isinstance(t, ast.Name) and t.id == LO
+                                                                                           for t in st.targets)), None)
     if mask_i is None or low_i is None:
-        raise AnalysisError("masking loop or `line_lower = line.lower()` not found before the dispatch chain")
+        raise AnalysisError("masking loop or the case-folded copy of the statement not found before the dispatch chain")
     ok = mask_i < low_i
     rep.ob("lower-casing happens after literal masking", ok,
            "line_lower / the `lower` option are applied to the masked statement, literal text keeps its case" if ok else
            "`line.lower()` is computed before character literals are masked: with the `lower` option the "
            "content of literals (initial values, bind names) is lower-cased", py.nloc(cs.pre[low_i]))
-    for i, s in enumerate(cs.pre):
-        if isinstance(s, ast.If) and "self.settings.lower" in ast.unparse(s.test):
+    for i, st in enumerate(cs.pre):
+        if isinstance(st, ast.If) and any(isinstance(n, ast.Attribute) and n.attr == "lower" and "settings" in ast.unparse(n.value)
+                                          for n in ast.walk(st.test)):
             ok2 = i > mask_i
-            rep.ob("`lower` option applied after masking", ok2, "", py.nloc(s))
+            rep.ob("`lower` option applied after masking", ok2, "", py.nloc(st))
     w = cs.pre[mask_i]
-    t = ast.unparse(w)
-    ok = "self.strings.append(quote.group())" in t and re.search(r"QUOTES_RE\.sub\(f'\"\{len\(self\.strings\) - 1\}\"', line\[search_from:\], count=1\)", t) is not None
+    stores = [n for n in ast.walk(w) if appends_strings(n) and n.args and isinstance(n.args[0], ast.Call)
+              and isinstance(n.args[0].func, ast.Attribute) and n.args[0].func.attr == "group"]
+    def is_placeholder_sub(n):
+        if not (isinstance(n, ast.Call) and isinstance(n.func, ast.Attribute) and n.func.attr == "sub" and n.args):
+            return False
+        once = any(k.arg == "count" and isinstance(k.value, ast.Constant) and k.value.value == 1 for k in n.keywords) or \
+            (len(n.args) >= 3 and isinstance(n.args[2], ast.Constant) and n.args[2].value == 1)
+        fs = n.args[0]
+        indexed = isinstance(fs, ast.JoinedStr) and any(isinstance(c, ast.Call) and call_name(c) == "len" and c.args
+                                                        and ast.unparse(c.args[0]) == "self.strings" for c in ast.walk(fs))
+        return once and indexed
+    subs = [st for st in ast.walk(w) if isinstance(st, ast.Assign) and any(isinstance(t, ast.Name) and t.id == LV for t in st.targets)
+            and any(is_placeholder_sub(n) for n in ast.walk(st.value))]
+    ok = bool(stores) and bool(subs)
     rep.ob("masking replaces each literal by its index placeholder", ok,
-           'literal k is stored in self.strings[k] and replaced by "k"' if ok else "masking loop body changed", py.nloc(w))
-    # nothing between masking and the chain re-reads the raw text: the only statements are the
-    # lower-casing ones
+           'literal k is stored in self.strings[k] and one occurrence is replaced by "k"' if ok else
+           "the masking loop does not store the matched literal and substitute exactly one occurrence by its index", py.nloc(w))
+    # nothing between masking and the chain re-reads the unmasked text: the statement variables are only re-assigned
+    # from each other
     between = cs.pre[mask_i + 1:]
-    ok = all(isinstance(s, (ast.Assign, ast.If)) and "line" in ast.unparse(s) and "source" not in ast.unparse(s) for s in between) \
-        and len(between) == 2
-    rep.ob("nothing re-reads the unmasked text before dispatch", ok, f"{len(between)} statements between masking and the chain", py.nloc(cs.loop))
-    rs = [s for s in cs.pre if isinstance(s, ast.Assign) and ast.unparse(s).startswith("self.strings = []")]
-    rep.ob("literal table reset per statement", len(rs) == 1 and cs.pre.index(rs[0]) < mask_i, "", py.nloc(cs.loop))
+    bad = [st for st in between for a in ast.walk(st) if isinstance(a, ast.Assign)
+           and any(isinstance(t, ast.Name) and t.id in (LV, LO) for t in a.targets)
+           and not {n.id for n in ast.walk(a.value) if isinstance(n, ast.Name)} <= {LV, LO, "self"}]
+    rep.ob("nothing re-reads the unmasked text before dispatch", not bad,
+           f"{len(between)} statements between masking and the chain; the statement is only re-assigned from itself" if not bad else
+           f"`{ast.unparse(bad[0])[:70]}` rebuilds the statement from something else than its masked text", py.nloc(cs.loop))
+    rs = [i for i, st in enumerate(cs.pre) if isinstance(st, ast.Assign) and any(ast.unparse(t) == "self.strings" for t in st.targets)
+          and isinstance(st.value, ast.List) and not st.value.elts]
+    rep.ob("literal table reset per statement", len(rs) >= 1 and rs[0] < mask_i,
+           "self.strings is emptied at the top of each iteration", py.nloc(cs.loop))
 
 
 def r5_continuation(ctx, rep):
